@@ -16,10 +16,13 @@ mod c21;
 mod c22;
 mod c23;
 mod c24;
+mod c25;
 mod c27;
 mod c28;
+mod c29;
 mod c30;
 mod c31;
+mod c32;
 mod c33;
 mod c35;
 mod c37;
@@ -44,10 +47,13 @@ pub fn run(item: &str, repo: &str, out: &str) -> Result<String, String> {
         c22::run,
         c23::run,
         c24::run,
+        c25::run,
         c27::run,
         c28::run,
+        c29::run,
         c30::run,
         c31::run,
+        c32::run,
         c33::run,
         c35::run,
         c37::run,
